@@ -71,9 +71,11 @@ def run_check(pid, tier, replay=None):
             plan = [(2, 1, 1, sl, 4), (3, 0, 1, ["p", "i"], 1), (3, 1, 0, ["s1", "m"], 1), (1, 1, 1, ALL_SLOTS, 1, 1),
                     (1, 2, 0, ["m", "mm"], 1, 1), (2, 1, 0, ["p", "mm"], 1, 2)]
         else:
-            plan = [(2, 1, 1, ["p", "s1", "m", "mi", "i"], 1), (2, 1, 1, ["s2", "a", "m", "mi", "i"], 1), (3, 0, 1, ["p", "i"], 1),
-                    (3, 1, 0, ["s1", "m"], 1), (3, 1, 1, ["p", "m", "i"], 12), (1, 1, 1, ALL_SLOTS, 1, 1),
-                    (1, 2, 0, ["m", "mm"], 1, 1), (2, 2, 0, ["p", "mm"], 1, 2), (2, 2, 0, ["m", "mm", "i"], 8, 1)]
+            # every graph is copied four times (copier, Config defaults, source value, re-stack): the larger universes are
+            # sampled (measured: ~1.06M graphs emitted in total)
+            plan = [(2, 1, 1, ["p", "s1", "m", "mi", "i"], 5), (2, 1, 1, ["s2", "a", "m", "mi", "i"], 5), (3, 0, 1, ["p", "i"], 1),
+                    (3, 1, 0, ["s1", "m"], 1), (3, 1, 1, ["p", "m", "i"], 80), (1, 1, 1, ALL_SLOTS, 1, 1),
+                    (1, 2, 0, ["m", "mm"], 1, 1), (2, 2, 0, ["p", "mm"], 5, 2), (2, 2, 0, ["m", "mm", "i"], 8, 1)]
         runs, cases, states, trans = [], [], 0, 0
         for i, row in enumerate(plan):
             n, m, mi, slots, sample = row[:5]
